@@ -197,7 +197,7 @@ func (m *vmod) VerifyTransaction(ctx *statemachine.TransactionVerifyContext) sta
 		return statemachine.NewVerifyResultOK()
 	}
 	sc := scriptOf(ctx.Transaction().Params())
-	if sc.Salt < 0 { // "reads" marker for verification (see runner)
+	if sc.VRead {
 		m.rec.verifyObserved = append(m.rec.verifyObserved, m.readAll(func(s int) statemachine.ImmutableStore {
 			return ctx.GetStore(stores[s].store, stores[s].sub)
 		}))
@@ -222,7 +222,7 @@ func (m *vmod) AfterTransactionsExecute(ctx *statemachine.AfterTransactionsExecu
 func (m *vmod) BeforeCommandExecute(ctx *statemachine.TransactionExecuteContext) error {
 	bs := blockScriptOf(ctx.BlockAssets())
 	sc := scriptOf(ctx.Transaction().Params())
-	m.observe("BeforeCommandExecute", string(ctx.Transaction().ID()), bs.Reads, mutableGetter(ctx))
+	m.observe("BeforeCommandExecute", "", bs.Reads, mutableGetter(ctx))
 	m.interpret(ctx, sc.Pre, false)
 	return nil
 }
@@ -230,7 +230,7 @@ func (m *vmod) BeforeCommandExecute(ctx *statemachine.TransactionExecuteContext)
 func (m *vmod) AfterCommandExecute(ctx *statemachine.TransactionExecuteContext) error {
 	bs := blockScriptOf(ctx.BlockAssets())
 	sc := scriptOf(ctx.Transaction().Params())
-	m.observe("AfterCommandExecute", string(ctx.Transaction().ID()), bs.Reads, mutableGetter(ctx))
+	m.observe("AfterCommandExecute", "", bs.Reads, mutableGetter(ctx))
 	m.interpret(ctx, sc.Post, false)
 	return nil
 }
@@ -249,7 +249,7 @@ func (c *scriptCommand) Execute(ctx *statemachine.TransactionExecuteContext) err
 	bs := blockScriptOf(ctx.BlockAssets())
 	sc := scriptOf(ctx.Transaction().Params())
 	c.m.rec.executed++
-	c.m.observe("Execute", string(ctx.Transaction().ID()), bs.Reads, mutableGetter(ctx))
+	c.m.observe("Execute", "", bs.Reads, mutableGetter(ctx))
 	c.m.interpret(ctx, sc.Cmd, sc.Hold)
 	if sc.Fail {
 		return errScriptFail
